@@ -320,6 +320,8 @@ int run_c04_set(const Params &P, mc::Ctx &ctx) {
           c.qbits = {P.bits};
           if (!automatic) c.explicit_q[0] = {origin, P.range};
           c.use_plain_encoder = speed == 5;
+          // speed 10 also switches the built-in attribute compression off (raw value storage with a width byte)
+          c.builtin_entropy = speed != 10;
           EncResult enc;
           {
             const uint64_t refused_before = mc::alloc_env().refused;
@@ -530,6 +532,89 @@ int main(int argc, char **argv) {
     for (size_t i = 0; i < all.size(); i += 5) sub.push_back(all[i]);
     add("asan_params_every5th_expert", sub, true, true, false);
     add("asan_params_all", all, false, false, true);
+  }
+  // Decoder-side options: the explicitly quantized POSITION must decode to the same values when the decoder is told to leave
+  // ANOTHER attribute in its quantized form. Clouds of 9 points with [GENERIC float3 (10 bits), POSITION (explicit P)] and
+  // [POSITION, GENERIC], sequential and kd-tree, for every parameter set.
+  {
+    mc::Space s;
+    s.name = std::string(asan ? "asan_" : "") + "decoder_skips_another_attribute";
+    s.size = all.size() * 2 * 2;
+    s.quick = s.thorough = true;
+    auto P = std::make_shared<std::vector<Params>>(all);
+    s.run = [=](uint64_t idx, mc::Ctx &ctx) {
+      const Params &p = (*P)[idx / 4];
+      const bool pos_first = (idx / 2) % 2, kd = idx % 2;
+      std::vector<float> A[3];
+      for (int c = 0; c < 3; ++c) A[c] = alphabet(p.origin[c], p.range, p.bits);
+      GeomDef g;
+      g.is_mesh = false;
+      g.num_points = 9;
+      AttDef pos, gen;
+      pos.type = GeometryAttribute::POSITION; pos.dt = DT_FLOAT32; pos.nc = 3; pos.uid = 2;
+      gen.type = GeometryAttribute::GENERIC; gen.dt = DT_FLOAT32; gen.nc = 3; gen.uid = 7;
+      for (int i = 0; i < 9; ++i) {
+        pos.entries.push_back(bytes_of(std::vector<float>{A[0][i], A[1][(i * 2 + 1) % 9], A[2][(i * 4 + 3) % 9]}));
+        gen.entries.push_back(bytes_of(std::vector<float>{0.4f + 0.05f * i, 0.5f - 0.03f * i, 0.5f + 0.01f * (i % 4)}));
+      }
+      if (pos_first) g.atts = {pos, gen}; else g.atts = {gen, pos};
+      const int pid = pos_first ? 0 : 1;
+      EncCfg c;
+      c.method = kd ? POINT_CLOUD_KD_TREE_ENCODING : POINT_CLOUD_SEQUENTIAL_ENCODING;
+      c.qbits = {10, 10};
+      c.qbits[pid] = p.bits;
+      c.explicit_q[pid] = {std::vector<float>{p.origin[0], p.origin[1], p.origin[2]}, p.range};
+      auto cloud = build_cloud(g);
+      EncResult enc;
+      const uint64_t refused_before = mc::alloc_env().refused;
+      try {
+        enc = encode(g, *cloud, nullptr, c);
+      } catch (const std::bad_alloc &) {
+        if (mc::alloc_env().refused == refused_before) throw;
+        ctx.count("encoder_request_above_harness_cap");
+        return;
+      }
+      if (!enc.ok) {
+        ctx.count("encode_reported_failure");
+        return;
+      }
+      auto positions = [&](bool skip_generic, std::vector<std::array<uint32_t, 3>> *out) -> bool {
+        DecoderBuffer b;
+        b.Init(reinterpret_cast<const char *>(enc.bytes.data()), enc.bytes.size());
+        Decoder d;
+        if (skip_generic) d.SetSkipAttributeTransform(GeometryAttribute::GENERIC);
+        auto r = d.DecodePointCloudFromBuffer(&b);
+        if (!r.ok()) return false;
+        const PointAttribute *pa = r.value()->GetAttributeByUniqueId(2);
+        if (!pa || pa->data_type() != DT_FLOAT32 || pa->num_components() != 3) return false;
+        for (PointIndex q(0); q < r.value()->num_points(); ++q) {
+          std::array<float, 3> v;
+          pa->GetMappedValue(q, v.data());
+          out->push_back({fbits(v[0]), fbits(v[1]), fbits(v[2])});
+        }
+        std::sort(out->begin(), out->end());
+        return true;
+      };
+      std::vector<std::array<uint32_t, 3>> plain, skipped;
+      const bool ok1 = positions(false, &plain), ok2 = positions(true, &skipped);
+      ctx.count("decodes_with_another_attribute_skipped");
+      if (!ok1 || !ok2 || plain != skipped) {
+        char b[200];
+        snprintf(b, sizeof b, "origin=(%.9g,%.9g,%.9g) range=%.9g bits=%d", p.origin[0], p.origin[1], p.origin[2], p.range, p.bits);
+        ctx.fail(std::string("positions-depend-on-skip-of-another-attribute|") + (kd ? "kd-tree" : "cloud-sequential"),
+                 std::string(b) + (pos_first ? " [POSITION, GENERIC]" : " [GENERIC, POSITION]") + (ok1 && ok2 ? "" : " (a decode failed)"));
+        return;
+      }
+      ctx.nontrivial_unique();
+    };
+    s.describe = [=](uint64_t idx) {
+      const Params &p = (*P)[idx / 4];
+      char b[260];
+      snprintf(b, sizeof b, "origin=(%.9g,%.9g,%.9g) range=%.9g bits=%d, 9-point cloud %s, %s, decoded with and without SetSkipAttributeTransform(GENERIC)",
+               p.origin[0], p.origin[1], p.origin[2], p.range, p.bits, (idx / 2) % 2 ? "[POSITION, GENERIC]" : "[GENERIC, POSITION]", idx % 2 ? "kd-tree" : "sequential");
+      return std::string(b);
+    };
+    R.add(s);
   }
   R.require("executions_compared", 1000);
   return R.main();
